@@ -118,6 +118,15 @@ CHECKS = {
             "on either side); results compared on all words up to length 3; other operand types must raise "
             "NotImplementedError.",
             "Trusted: TLC, projections. Pairs are a sample of the product; words up to length 3.", "DESIGN.md section 3 C11"),
+    "C16": ("TLA+ FST API state machine (FSTGen) enumerated by TLC within the property's domain (epsilon cycles write "
+            "nothing), replayed through the public API; translate, union, concatenate, kleene_star (and | +) and "
+            "FiniteAutomaton.to_fst judged by TraceFST with FSTSem: output sets by closure over configurations and the "
+            "relation algebra (all splits / all factorisations of the input word)",
+            "Exhaustive within small constants (nondeterministic transducers, several start/final states, epsilon-input "
+            "moves and silent epsilon cycles, start states with incoming and final states with outgoing transitions, "
+            "operands sharing state names, the same object twice); relations compared on all inputs up to length 3, both "
+            "on the recorded structure of the result and on what translate() yields on it.",
+            "Trusted: TLC, projection. Input words up to length 3; translate consumed under a budget.", "DESIGN.md section 3 C16"),
 }
 
 NOT_YET = "check not built yet in this round (see DESIGN.md section 9, build order); no claim is made"
